@@ -1538,7 +1538,23 @@ def convert_from_interleaved(args):
     eq = ",".join("".join(symbol_map[ix] for ix in term) for term in inputs)
     if nargs % 2 == 1:
         # has output specified
-        eq += f"->{''.join(symbol_map[ix] for ix in args[-1])}"
+        output = args[-1]
+    else:
+        # implicit output: as for numpy, any ellipsis dimensions, then the
+        # labels that appear exactly once, sorted by *label* (the symbols are
+        # assigned in order of appearance, so can't be used to sort)
+        counts = collections.Counter(
+            ix for term in inputs for ix in term if ix is not ...
+        )
+        output = [ix for ix, count in counts.items() if count == 1]
+        try:
+            output.sort()
+        except TypeError:
+            # labels not mutually sortable -> keep order of appearance
+            pass
+        if any(ix is ... for term in inputs for ix in term):
+            output.insert(0, ...)
+    eq += f"->{''.join(symbol_map[ix] for ix in output)}"
     return eq, arrays
 
 
